@@ -123,6 +123,10 @@ func (s *Server) rejectPrivateAndLoopbackIPAction(_ context.Context, in egress.I
 func (s *Server) isDestinationAllowed(dst model.AddrSpec, userName string) bool {
 	ip := dst.IP
 	if len(ip) == 0 && dst.FQDN != "" {
+		// A domain name can carry an IP address literal.
+		ip = net.ParseIP(dst.FQDN)
+	}
+	if len(ip) == 0 && dst.FQDN != "" {
 		// If we do a DNS lookup, we leak the destination domain name to the DNS server.
 		// For user privacy, we only check some well-known local domain names.
 		domainName := dst.FQDN
